@@ -311,6 +311,9 @@ var c06Runtimes = [][]byte{
 	{0x60, 0x00, 0x35, 0x60, 0x01, 0x55, 0x60, 0x00, 0x35, 0x60, 0x02, 0x55, 0x60, 0x00, 0x35, 0x60, 0x03, 0x55, 0x60, 0x00, 0x35, 0x60, 0x04, 0x55, 0x33, 0x60, 0x00, 0x55, 0x00},
 	// 6 balance forwarder: send callvalue/2 to address in calldata[0:32] (CALL), store result in slot0
 	{0x60, 0x00, 0x60, 0x00, 0x60, 0x00, 0x60, 0x00, 0x60, 0x02, 0x34, 0x04, 0x60, 0x00, 0x35, 0x61, 0xff, 0xff, 0xf1, 0x60, 0x00, 0x55, 0x00},
+	// 7 poke and revert: CALL(address in calldata[0:32], value = callvalue), then REVERT: whatever the
+	// inner call created or touched is rolled back by the journal
+	{0x60, 0x00, 0x60, 0x00, 0x60, 0x00, 0x60, 0x00, 0x34, 0x60, 0x00, 0x35, 0x61, 0xff, 0xff, 0xf1, 0x50, 0x60, 0x00, 0x60, 0x00, 0xfd},
 }
 
 // ---- transaction generator
@@ -327,6 +330,7 @@ type c06Gen struct {
 	nonce     map[int]uint64
 	dStore    common.Address
 	dKill     common.Address
+	dPoke     common.Address
 	made      []*types.Transaction
 	kinds     map[string]int
 }
@@ -492,11 +496,16 @@ func (g *c06Gen) directed(h uint64) []*types.Transaction {
 		add("directed.create", types.NewContractCreation(g.nonce[k], big.NewInt(0), 300000, price, c06Init(c06Runtimes[1], true)))
 		g.dKill = crypto.CreateAddress(g.addrs[k], g.nonce[k])
 		add("directed.create", types.NewContractCreation(g.nonce[k], big.NewInt(1000), 300000, price, c06Init(c06Runtimes[3], true)))
-		g.contracts = append(g.contracts, g.dStore, g.dKill)
+		g.dPoke = crypto.CreateAddress(g.addrs[k], g.nonce[k])
+		add("directed.create", types.NewContractCreation(g.nonce[k], big.NewInt(0), 300000, price, c06Init(c06Runtimes[7], true)))
+		g.contracts = append(g.contracts, g.dStore, g.dKill, g.dPoke)
 		set(5)
 	case 2:
 		set(0)
 		add("directed.selfdestruct", types.NewTransaction(g.nonce[k], g.dKill, big.NewInt(0), 100000, price, nil))
+		// same block, later transaction: the dead address is re-created (value transfer) inside a frame
+		// that is then reverted; the destruct mark of the earlier transaction must survive the revert
+		add("directed.poke-dead-and-revert", types.NewTransaction(g.nonce[k], g.dPoke, big.NewInt(5), 200000, price, common.LeftPadBytes(g.dKill.Bytes(), 32)))
 	case 3:
 		set(7)
 		add("directed.refund-dead", types.NewTransaction(g.nonce[k], g.dKill, big.NewInt(12345), 30000, price, nil))
